@@ -6,6 +6,9 @@ deterministic geometric post-conditions on every single result, an RNG-shadow re
 composite operations (sum of parts, generator consumption), and statistical symmetry
 tests (proposal vs its inverse) and uniformity tests on i.i.d. draws, with one
 re-measurement before a statistical alarm.
+Bounds are judged against the step size each operation was constructed with (recorded at
+the constructor), groups include atoms outside the cell and straddling its faces, cells
+are fully, partially or not periodic.
 """
 from __future__ import annotations
 
